@@ -172,6 +172,10 @@ Example C02_set_the_example :
   gen_lingo (reify_s en [] 0 (SSetThe TSystem 27 (EInt 5))) 1 = ("    set the stageColor = 5" ++ "
 ")%string /\
   gen_lingo (reify_s en [] 0 (SSetThe TSpecial 0 (EInt 4))) 1 = ("    set the floatPrecision = 4" ++ "
+")%string /\
+  (* set the <name> of <o> = v (SSetAcc, 62 n) *)
+  compile_s (SSetAcc 0 (ECall 0 [EInt 2]) (EInt 1)) = [Byte.x41; Byte.x02; Byte.x43; Byte.x01; Byte.x57; Byte.x00; Byte.x41; Byte.x01; Byte.x62; Byte.x00] /\
+  gen_lingo (reify_s en [] 0 (SSetAcc 0 (ECall 0 [EInt 2]) (EInt 1))) 1 = ("    set the x of x(2) = 1" ++ "
 ")%string.
 Proof. split; [cbn; repeat split; try lia; right; reflexivity|]. split; [cbn; repeat split; reflexivity|]. repeat split; vm_compute; reflexivity. Qed.
 
